@@ -92,6 +92,59 @@ theorem override_without_super_replaces (fuel : Nat) (child : List Node) (rest :
 example : expandChain 5 [[.text ['c'], .blockSuper], [.text ['p']]] = [.text ['c'], .text ['p']] := by
   rfl
 
+mutual
+  def plainNodes : Nat → List Node → Bool
+    | 0, _ => true
+    | _ + 1, [] => true
+    | n + 1, nd :: rest => plainNode n nd && plainNodes n rest
+  def plainNode : Nat → Node → Bool
+    | 0, _ => true
+    | n + 1, nd =>
+      match nd with
+      | .block _ _ => false
+      | .blockSuper => false
+      | .extends _ => false
+      | .includen _ => false
+      | .ifn _ a b => plainNodes n a && plainNodes n b
+      | .forn _ _ body => plainNodes n body
+      | .withn _ _ body => plainNodes n body
+      | .elem _ body => plainNodes n body
+      | .slot _ _ _ _ body => plainNodes n body
+      | .fill _ _ _ body => plainNodes n body
+      | .comp _ _ _ _ body => plainNodes n body
+      | .provide _ _ body => plainNodes n body
+      | _ => true
+end
+
+theorem flatten_plain (fam : Family) (fuel : Nat) :
+    (∀ ov nodes, plainNodes fuel nodes = true → flattenNodes fam fuel ov nodes = nodes) ∧
+    (∀ ov nd, plainNode fuel nd = true → flattenNode fam fuel ov nd = [nd]) := by
+  induction fuel with
+  | zero => exact ⟨fun _ _ _ => by simp [flattenNodes], fun _ _ _ => by simp [flattenNode]⟩
+  | succ n ih =>
+    obtain ⟨ih1, ih2⟩ := ih
+    constructor
+    · intro ov nodes h
+      cases nodes with
+      | nil => simp [flattenNodes]
+      | cons nd rest =>
+        simp only [plainNodes, Bool.and_eq_true] at h
+        simp [flattenNodes, ih1 ov rest h.2, ih2 ov nd h.1]
+    · intro ov nd h
+      cases nd <;> simp only [plainNode, Bool.and_eq_true] at h <;>
+        first
+        | (simp [flattenNode, ih1 ov _ h]; done)
+        | (simp [flattenNode, ih1 ov _ h.1, ih1 ov _ h.2]; done)
+        | (simp [flattenNode]; done)
+        | (cases h)
+
+/-- **A template that uses no composition tag is its own flattening** — whatever component, slot,
+fill and provide tags it holds, at any depth, and whatever overrides are in force: flattening only
+ever touches `extends` / `block` / `block.super` / `include`. -/
+theorem flatten_leaves_plain_templates_alone (fam : Family) (fuel : Nat) (ov : Overrides) (nodes : List Node)
+    (h : plainNodes fuel nodes = true) : flattenNodes fam fuel ov nodes = nodes :=
+  (flatten_plain fam fuel).1 ov nodes h
+
 /-- The property at full strength (part 2) for the interpreters: rendering a family equals
 rendering its flattening.  OPEN: the model of the code has no block machinery of its own (the
 interpreters refuse composition tags); decided on the real code by the metamorphic stream. -/
